@@ -454,6 +454,8 @@ func allChecks() []CheckSpec {
 					Bounds: "2 local + 1 remote candidates, 24-bit values, priorities 1..256", MustReach: []string{"superseded", "stale-second", "done"}},
 				{Fn: "verifC20ControllingReorder", Lemma: "the controlling side renominates pair A (value v) and then pair B (value v+1) through the real RenominateCandidate; the two authenticated success responses arrive in order or reordered (the older one last): afterwards it sits on B, the pair of the highest value it issued",
 					Bounds: "2 local + 1 remote candidates, any 24-bit starting value, priorities 1..256, both arrival orders", MustReach: []string{"in-order", "reordered", "done"}},
+				{Fn: "verifC20DeferredConsumedOnce", Lemma: "five steps through the real handlers on a controlled agent: a plain USE-CANDIDATE on not-yet-valid P is deferred; P's check succeeds and P is selected; a tick sends a keepalive on P; the peer renominates the valid pair Q and the agent follows; the keepalive's response arrives late: the selection stays on Q for all priorities and values (the deferred nomination was consumed when P became valid)",
+					Bounds: "2 local + 1 remote candidates, priorities 1..256, 16-bit nomination value", MustReach: []string{"done"}},
 				{Fn: "verifC20Renominate", Lemma: "RenominateCandidate: controlled or feature-off => error and nothing sent; otherwise one request with USE-CANDIDATE and the generator's value, recorded with it",
 					Bounds: "both roles x feature on/off, any 32-bit generator value", MustReach: []string{"renominated", "valued", "done"}},
 				{Fn: "verifC20Codec", Lemma: "nomination values below 2^24 survive encode/decode", Bounds: "all 32-bit values", MustReach: []string{"done"}},
